@@ -115,7 +115,7 @@ Clauses0(ev) ==
          \cup F("gen.weight", LawVisited(p, post) /\ ~LawGenWeight(p, post, cons, ev.w))
     [] ev.op \in {"update", "diffannotate"} ->
          TraceClauses(p, post, ev) \cup AltClauses(post, ev) \cup UndoClauses(pre, ev) \cup TagClauses(ev)
-         \cup (IF RsD(p, post, ev.tags, td) = RsD(p, post, ev.tags, DOMAIN cons) THEN Alt2Clauses(post, ev) ELSE {})
+         \cup Alt2Clauses(post, ev)      \* also where a masked-off traced constraint taints a switch index (finding KF-C35-1)
          \cup F("upd.args", ~LawUpdArgs(post, ev.reqargs))
          \cup F("upd.constrained", ~LawUpdConstrained(post, cons))
          \cup F("upd.kept", ~LawUpdKeptD(p, pre, post, ev.tags, cons, td))
